@@ -3,19 +3,22 @@ import Receptor.Generated.Facts
 /-!
 # C18 — advertisements converge; a withdrawn service is never resurrected
 
-The pinned tree keeps no memory of a withdrawal (`ads_tombstones = false`): the
-full-strength statements hold for the tombstone variant of the model and are proved for it;
-for the variant the source implements the proved statements are the `_partial` ones, and the
-negation of the full statement is proved on concrete witnesses (`C18_witness_*`), which the
-check replays on the implementation (known finding).
+The pinned tree kept no memory of a withdrawal: the full-strength statements hold for the tombstone
+variant of the model and are proved for it; for the variant without tombstones the proved statements
+are the `_partial` ones, and the negation of the full statement is proved on concrete witnesses
+(`C18_witness_*`), which the check replayed on the implementation.  The source now remembers
+withdrawals (`ads_tombstones = true`, repaired in /repo): the full-strength theorems are the ones that
+apply to it.
 -/
 namespace Receptor.Ads
 
-/-- **Tie (translator)**: keep-unless-newer test, cancel deletes the entry (no tombstone),
-relay through `flood(data, receivedFrom)` only when the message was not ignored. -/
+/-- **Tie (translator)**: a message that is not newer than a remembered withdrawal is ignored; keep-unless-newer
+test; a cancel deletes the entry and records its time, an advertisement forgets the withdrawal; relay through
+`flood(data, receivedFrom)` only when the message was not ignored. -/
 theorem C18_facts :
     Receptor.Facts.ads_keep_test = "si.Time.After(curSvc.Time)"
-    ∧ Receptor.Facts.ads_tombstones = false
+    ∧ Receptor.Facts.ads_tombstone_test = "withdrawn && !si.Time.After(withdrawnAt)"
+    ∧ Receptor.Facts.ads_tombstones = true
     ∧ Receptor.Facts.ads_relay = "keepCur:return;s.flood(data, receivedFrom)" := by decide
 
 def about (k : Node × Svc) (m : Msg) : Bool := (m.node, m.svc) == k
